@@ -190,5 +190,54 @@ def run(prog, tier, res):
         res.hit(R5)
     else:
         res.violate(R5, "constants", "geometry", "geometry constants disagree: %s" % consts, "")
-    res.undecided = ["bijectivity of INV_PADS_0 (built by a run-time loop inside lazy_static)", "numerical phi values",
+    # ------------------------------------------------------------------ R6: the pad map inside one PWB is a bijection
+    R6 = res.rule("C08.R6", "INV_PADS_0: (chip 0..=3, channel 1..=72) -> (pad column 0..=3, pad row 0..=71) is keyed by the loop variables, "
+                  "total, injective and onto (the loop body's path formulas evaluated over the 4 x 72 iteration domain)", 288)
+    from .. import audited, finite
+    from .common import int_conversion_ranges, ranges_of
+    STATIC = D + "padwing::map::INV_PADS_0"
+    ib = audited.lazy_init_body(prog, STATIC)
+    if ib is None:
+        res.violate(R6, STATIC, "initialiser", "lazy initialiser of INV_PADS_0 not found", "", kind="anchor-missing")
+    else:
+        res.functions.add(ib.path)
+        r = finite.nested_loop_table(prog, ib)
+        if r[0] is None or r[1]:
+            res.violate(R6, STATIC, "evaluate", "the initialiser is not a two-level constant-range loop nest with one insert whose key/value formulas can be evaluated: %s" % (r[1][:2],), ib.where())
+        else:
+            table, _, convs, (olo, ohi, ilo, ihi) = r
+            bad = []
+            # conversions of the value accept what they are given (no unwrap panic in the initialiser)
+            acc = []
+            for cv in convs["key"] + convs["value"]:
+                if cv in prog.bodies:
+                    cb = prog.bodies[cv]
+                    cty = cb.locals[1]["ty"]
+                    hi_ = min((1 << cty["w"]) - 1, 65535) if cty.get("k") == "int" else 255
+                    acc.append(int_conversion_ranges(prog, cv, 0, hi_)[0])
+                else:
+                    acc.append(None)
+            seen = {}
+            for (i, j), (kv, vv) in sorted(table.items()):
+                if kv != (i, j):
+                    bad.append(("key:%d,%d" % (i, j), "entry built in iteration (%d, %d) is stored under key %s" % (i, j, kv)))
+                    continue
+                vals = list(kv) + list(vv)
+                if any(a is not None and x not in a for a, x in zip(acc, vals)):
+                    bad.append(("range:%d,%d" % (i, j), "iteration (%d, %d) passes a value outside a conversion's accepted range (%s): the initialiser panics" % (i, j, vals)))
+                    continue
+                if vv in seen:
+                    bad.append(("collision:%d,%d" % (i, j), "(chip %d, channel %d) and (chip %d, channel %d) map to the same pad %s" % (seen[vv] + (i, j) + (vv,))))
+                    continue
+                seen[vv] = (i, j)
+                res.hit(R6)
+            want = set((c_, r_) for c_ in range(consts[D + "padwing::map::PWB_PAD_COLUMNS"]) for r_ in range(consts[D + "padwing::map::PWB_PAD_ROWS"]))
+            if not bad and set(seen) != want:
+                miss = sorted(want - set(seen))[:3]
+                bad.append(("onto", "pads %s of a PWB are assigned to no (chip, channel)" % (miss,)))
+            if (olo, ohi, ilo, ihi) != (0, 3, 1, 72):
+                bad.append(("domain", "iteration domain is chips %d..=%d x channels %d..=%d" % (olo, ohi, ilo, ihi)))
+            for k_, what in bad[:6]:
+                res.violate(R6, STATIC, k_, what, ib.where())
+    res.undecided = ["numerical phi values",
                      "whether each run-number threshold is the physically right one (no oracle in the repository other than the constants themselves)"]
